@@ -592,6 +592,9 @@ func c04Run(sc c04Scenario) (vs []ev.V) {
 			vs = append(vs, ev.Vf("route:start-refused", "envelope %d: Start(%q) failed: %v", ei, from, err))
 			continue
 		}
+		// what each target already holds in this transaction: a recipient that is named again (or that another
+		// recipient is rewritten to) need not be handed to the same target a second time
+		held := map[string]bool{}
 		for ri, rc := range env.Rcpts {
 			to, err := address.CleanDomain(rc.String())
 			if err != nil {
@@ -606,6 +609,9 @@ func c04Run(sc c04Scenario) (vs []ev.V) {
 					got[e.Tgt+"|"+c04Identity(e.Arg)] = true
 				}
 			}
+			for k := range got {
+				held[k] = true
+			}
 			want := &c04Outcome{Delivered: map[string]bool{}}
 			c04Route(sc.Pipe, env.From, rc, want)
 			where := fmt.Sprintf("envelope %d (MAIL FROM %q) RCPT %d %q (identity %s)", ei, from, ri, to, rc.id())
@@ -615,7 +621,16 @@ func c04Run(sc c04Scenario) (vs []ev.V) {
 					vs = append(vs, ev.Vf("route:refused-but-model-delivers", "%s: refused with %v, the documented precedence selects only delivering blocks: %v", where, rerr, c04Keys(want.Delivered)))
 					continue
 				}
-				if !c04SameSet(got, want.Delivered) {
+				gotOrHeld := map[string]bool{}
+				for k := range got {
+					gotOrHeld[k] = true
+				}
+				for k := range want.Delivered {
+					if held[k] {
+						gotOrHeld[k] = true
+					}
+				}
+				if !c04SameSet(gotOrHeld, want.Delivered) {
 					vs = append(vs, ev.Vf("route:wrong-targets", "%s: targets that saw it %v, documented precedence gives %v", where, c04Keys(got), c04Keys(want.Delivered)))
 				}
 			default:
